@@ -52,6 +52,12 @@ func MakeCase(harness, tier, prop string, m Model) ReplayCase {
 	return c
 }
 
+// SetAmplify marks a case for the amplified native attempt.
+func SetAmplify(c *ReplayCase) {
+	t := true
+	c.Model["vrt.amplify"] = replayValue{B: &t}
+}
+
 // WriteReplayDir writes cases.json, overlay.json and a run.sh into dir.
 func WriteReplayDir(dir string, cases []ReplayCase) error {
 	if err := os.MkdirAll(dir, 0o755); err != nil {
